@@ -298,15 +298,15 @@ class SpecEval:
         if op in ('==', '!=') and a.ty == 'seq' and b.ty == 'seq':
             z = a.z == b.z
             return VB(z if op == '==' else Not(z))
-        if op in ('==', '!=') and a.ty == 'E' and b.ty == 'E':
+        if op in ('==', '!=') and a.ty == b.ty and a.ty in ('E', 'node', 'item'):
             z = a.z == b.z          # reference identity in specifications
             return VB(z if op == '==' else Not(z))
-        if op in ('==', '!=') and a.ty == 'opt' and b.ty in ('opt', 'tok'):
+        if op in ('==', '!=') and a.ty == 'opt' and b.ty in ('opt', 'tok', 'item', 'node', 'E'):
             na, sa = ops.opt_parts(a)
             nb, sb = ops.opt_parts(b)
             z = Or(And(na, nb), And(Not(na), Not(nb), self.cmp('==', sa, sb).z))
             return VB(z if op == '==' else Not(z))
-        if op in ('==', '!=') and b.ty == 'opt' and a.ty == 'tok':
+        if op in ('==', '!=') and b.ty == 'opt' and a.ty in ('tok', 'item', 'node', 'E'):
             return self.cmp(op, b, a)
         return ops.compare(op, a, b, None)
 
@@ -316,7 +316,7 @@ class SpecEval:
         return self.ite(c, a, b)
 
     def ite(self, c, a, b):
-        if a.ty == b.ty and a.ty in ('int', 'bool', 'str', 'tok', 'E'):
+        if a.ty == b.ty and a.ty in ('int', 'bool', 'str', 'tok', 'E', 'node', 'item'):
             return Val(a.ty, If(c, a.z, b.z), **a.a)
         if a.ty == 'seq' and b.ty == 'seq':
             return VSeq(If(c, a.z, b.z), a.a['elem'])
